@@ -26,7 +26,7 @@ struct GroupScenario : Scenario {
             std::vector<uint8_t> sc = unhex(op.s.empty() ? "" : op.s[0]); sc.resize(32); env.lib_calls++;
             std::string out; int flag = -1;
             switch (k) {
-            case 0: R.jv_g1_add(v, p1[x].b, p1[x].b, p1[y].b); out = w.c1(p1[x]); break;
+            case 0: if (sc[0] & 1) R.jv_g1_add(v, p1[x].b, p1[x].b, p1[y].b); else { G1v tmp; memcpy(tmp.b, p1[x].b, sizeof(tmp.b)); R.jv_g1_add(v, p1[x].b, tmp.b, p1[y].b); } out = w.c1(p1[x]); break;
             case 1: R.jv_g1affine_from_projective(v, a1, p1[y].b); R.jv_g1_add_mixed(v, p1[x].b, p1[x].b, a1); out = w.c1(p1[x]); break;
             case 2: R.jv_g1_negate(v, p1[x].b, p1[y].b); out = w.c1(p1[x]); break;
             case 3: R.jv_g1_double(v, p1[x].b, p1[y].b); out = w.c1(p1[x]); break;
@@ -42,7 +42,7 @@ struct GroupScenario : Scenario {
             case 13: R.jv_g2affine_from_projective(v, a2, p2[y].b); R.jv_g2_multiply_affine(v, p2[x].b, a2, sc.data()); out = w.c2(p2[x]); break;
             case 14: flag = R.jv_g2_equal(v, p2[x].b, p2[y].b); break;
             case 15: R.jv_g2affine_from_projective(v, a2, p2[y].b); R.jv_g2affine_negate(v, b2, a2); flag = R.jv_g2affine_equal(v, a2, b2); R.jv_g2_from_affine(v, p2[x].b, b2); out = w.c2(p2[x]); break;
-            case 16: R.jv_gt_add(v, t[x].b, t[x].b, t[y].b); out = w.ct(t[x]); break;
+            case 16: if (sc[0] & 1) R.jv_gt_add(v, t[x].b, t[x].b, t[y].b); else R.jv_gt_add(v, t[x].b, t[y].b, t[x].b); out = w.ct(t[x]); break;   // result object = first or second operand (both when x == y)
             case 17: R.jv_gt_negate(v, t[x].b, t[y].b); out = w.ct(t[x]); break;
             case 18: R.jv_gt_double(v, t[x].b, t[y].b); out = w.ct(t[x]); break;
             case 19: flag = R.jv_gt_equal(v, t[x].b, t[y].b); break;
